@@ -187,10 +187,11 @@ func genEntry(r *rand.Rand, i int) string {
 var tmoChoices = []int{0, 0, 40, 65, 90, 115}
 
 // tmoKV: the timeout part of an input: mostly whole seconds well apart from each other, sometimes a short one
-// (2 s / 3 s, written in milliseconds) that lies BELOW the guns' 15 s default.
+// (5 s / 8 s, written in milliseconds) that lies BELOW the guns' 15 s default but is still far more than a local call
+// needs on a busy machine.
 func tmoKV(r *rand.Rand) string {
 	if r.Intn(6) == 0 {
-		return fmt.Sprintf("tmoms=%d", pick(r, []int{2000, 3000}))
+		return fmt.Sprintf("tmoms=%d", pick(r, []int{5000, 8000}))
 	}
 	return fmt.Sprintf("tmo=%d", pick(r, tmoChoices))
 }
